@@ -238,6 +238,10 @@ class IncrementalPublisher:
                 )
         elif isinstance(event, GroupFailureEvent):
             group = cast("DeliveryGroup", event.group)
+            if group not in self._ids:
+                # never announced as pending (a nested group failing together
+                # with a task it shares with an announced group): nothing to complete
+                return
             context.completed.append(
                 CompletedResult(
                     self._ensure_id(group), [ensure_graphql_error(event.error)]
